@@ -85,7 +85,7 @@ def choose_formula(c, ctx):
 
 
 def choose_wrt(c, ctx):
-    return tuple(c.seq(WRT_VARS, ctx["wrt"]))
+    return tuple(c.seq(WRT_VARS, ctx["wrt"], ctx.get("wrt_min", 0)))
 
 
 def side_terms(f):
@@ -415,15 +415,21 @@ def subchecks(tier, seed):
                         bounds={"max_terms": 1, "term_pool": 7, "wrt_max_len": 1}))
     else:
         subs.append(Sub("symbolic", drv_symbolic, {"terms": TERMS_ALL, "n": 3, "wrt": 3, "orderings": ["none", "degree"],
-                                                    "sides": ["simple", "y", "a"], "reverse_factors": True},
+                                                    "sides": ["simple", "y", "a"]},
                         shard_depth=4, bounds={"max_terms": 3, "term_pool": 14, "wrt_max_len": 3, "orderings": ["none", "degree"],
-                                               "sides": ["simple", "y ~", "a ~"], "factor_order": ["written", "reversed"]}))
+                                               "sides": ["simple", "y ~", "a ~"]}))
+        subs.append(Sub("symbolic-reversed", drv_symbolic, {"terms": [tuple(reversed(t)) for t in TERMS_ALL], "n": 2, "wrt": 3,
+                                                             "orderings": ["none", "degree"], "sides": ["simple", "y"]},
+                        shard_depth=3, bounds={"max_terms": 2, "term_pool": 14, "factor_order": "reversed (log(a):c:b ...)", "wrt_max_len": 3,
+                                               "orderings": ["none", "degree"], "sides": ["simple", "y ~"]}))
         subs.append(Sub("symbolic-4", drv_symbolic, {"terms": TERMS_ALL, "n": 4, "nmin": 4, "wrt": 2, "orderings": ["none"], "sides": ["simple"]},
                         shard_depth=4, bounds={"terms": 4, "term_pool": 14, "wrt_max_len": 2, "orderings": ["none"], "sides": ["simple"]}))
         subs.append(Sub("numeric", drv_numeric, {"terms": TERMS_ALL, "n": 3, "wrt": 2, "paths": ["formula"]},
                         shard_depth=4, bounds={"max_terms": 3, "term_pool": 14, "wrt_max_len": 2, "ensure_full_rank": [True, False], "paths": ["formula"]}))
-        subs.append(Sub("numeric-paths", drv_numeric, {"terms": TERMS_ALL, "n": 2, "wrt": 3, "paths": PATHS},
-                        shard_depth=3, bounds={"max_terms": 2, "term_pool": 14, "wrt_max_len": 3, "ensure_full_rank": [True, False], "paths": PATHS}))
+        subs.append(Sub("numeric-paths", drv_numeric, {"terms": TERMS_ALL, "n": 2, "wrt": 2, "paths": PATHS},
+                        shard_depth=3, bounds={"max_terms": 2, "term_pool": 14, "wrt_max_len": 2, "ensure_full_rank": [True, False], "paths": PATHS}))
+        subs.append(Sub("numeric-wrt3", drv_numeric, {"terms": TERMS_ALL, "n": 2, "wrt": 3, "wrt_min": 3, "paths": ["formula"]},
+                        shard_depth=3, bounds={"max_terms": 2, "term_pool": 14, "wrt_len": 3, "ensure_full_rank": [True, False], "paths": ["formula"]}))
         subs.append(Sub("numeric-outputs", drv_numeric, {"terms": TERMS_PLAIN, "n": 2, "wrt": 2, "paths": ["formula", "two-sided-specs"],
                                                           "outputs": ["numpy", "sparse"]},
                         shard_depth=3, bounds={"max_terms": 2, "term_pool": 7, "wrt_max_len": 2, "ensure_full_rank": [True, False],
